@@ -155,15 +155,7 @@ def c15(tier):
                     name, files = repo_files(rel)
                     docs.append((name, files))
         s.functions.update(n for n in ctx.bodies if n.endswith('::write_xml') or 'write_' in n.split('::')[-1])
-        # side condition for the short-write half: zeep never calls io::Write::write itself (write_fmt / write_all loop in std)
         direct = []
-        for n, b in ctx.bodies.items():
-            if b.kind != 'fn' or '::tests::' in n:
-                continue
-            for blk in b.blocks.values():
-                for line in blk['raw']:
-                    if re.search(r'as std::io::Write>::write\(|as std::io::Write>::write_vectored\(|as Write>::write\(', line):
-                        direct.append(n)
         for name, files in docs:
             s.scenarios += 1
             K = z3.Int('fail_at')
@@ -198,6 +190,7 @@ def c15(tier):
             bad = []
             for m, out in res:
                 failed_at = [e[1] for e in m.events if e[0] == 'sink_fail']
+                ekind = next((e[1] for e in m.events if e[0] == 'err_kind'), None)
                 if out[0] == 'panic':
                     k = failed_at[0] if failed_at else getattr(out[1], 'sink_n', None)
                     bad.append(('panic', k, str(out[1]), out[1].where))
@@ -207,7 +200,7 @@ def c15(tier):
                     r2, sink = out[1]
                     if failed_at:
                         if r2.variant == 0:
-                            bad.append(('false-success', failed_at[0], 'write_xml returned Ok although write call %d failed' % failed_at[0], ''))
+                            bad.append(('false-success', failed_at[0], 'write_xml returned Ok although write call %d failed%s' % (failed_at[0], (' with io::ErrorKind::' + ekind) if ekind else ''), 'kind=' + str(ekind)))
                         else:
                             e = deref(r2.fields[0])
                             is_io = isinstance(e, Adt) and e.name == 'WriterError' and ENUMS['WriterError'][e.variant] == 'Io'
@@ -220,12 +213,42 @@ def c15(tier):
                         if r2.variant != 0 or txt != free_text:
                             bad.append(('no-fault-differs', None, 'run without an injected failure differs from the unconstrained run', ''))
                         n_ok += 1
+            # short writes: a sink that accepts one byte per io::Write::write call; write_fmt / write_all loop in std, so the
+            # complete output must still arrive (only a direct, unchecked write() call can lose bytes)
+            ms = H.machine(ctx)
+            ssink = Sink()
+            ssink.short = True
+            rs, ssink = H.write_xml(ms, doc, ssink)
+            stext = ''.join(ssink.rope) if all(isinstance(p, str) for p in ssink.rope) else None
+            s.paths += 1
+            if rs.variant != 0 or stext != free_text:
+                d = tempfile.mkdtemp(prefix='zeep-verif-c15.')
+                try:
+                    write_files(d, files)
+                    rc1, out1, _ = native.run_driver(driver, d, name, os.path.join(d, '__s'), short=True)
+                    rc2, out2, _ = native.run_driver(driver, d, name, os.path.join(d, '__f'))
+                    sb = open(os.path.join(d, '__s.0'), 'rb').read() if os.path.exists(os.path.join(d, '__s.0')) else None
+                    fb = open(os.path.join(d, '__f.0'), 'rb').read() if os.path.exists(os.path.join(d, '__f.0')) else None
+                finally:
+                    rmtree(d)
+                s.replays += 1
+                rdir = save_replay('C15', '%s_short_write' % name, dict(list(files.items()) + [
+                    ('replay.sh', '%s gen . %s out --short\n' % (driver, name)), ('native_output.txt', out1 + out2),
+                    ('finding.txt', 'a sink that accepts one byte per write() call receives %s bytes, an unconstrained one %s\n' % (len(sb or b''), len(fb or b'')))]))
+                if sb != fb:
+                    s.rep.violation('c15/short-write-loses-bytes', '%s: with a short-writing sink the output is not the complete output (io::Write::write result ignored)' % name, rdir)
+                else:
+                    s.rep.inconc('ENCODING-MISMATCH %s short write: SMI output differs but native outputs agree' % name)
             s.samples.append(dict(document=name, write_calls=N, paths=len(res), err_paths=n_err, ok_paths=n_ok,
                                   violations=[b[:3] for b in bad][:5], fail_at='symbolic k in [0, %d]' % N))
             # replay every distinct violation class natively
             seen = set()
             for kind, k, msg, where in bad:
                 fn = re.sub(r'<impl at [^>]*>', '<impl>', where or '')
+                ek = None
+                if fn.startswith('kind='):
+                    ek = fn[5:] if fn[5:] != 'None' else None
+                    fn = 'error-kind-' + str(ek)
                 key = 'c15/%s/%s' % (kind, '::'.join(fn.split('::')[-2:]) if fn else name)
                 if key in seen:
                     continue
@@ -236,7 +259,7 @@ def c15(tier):
                 d = tempfile.mkdtemp(prefix='zeep-verif-c15.')
                 try:
                     write_files(d, files)
-                    rc, out, _ = native.run_driver(driver, d, name, os.path.join(d, '__o'), fail_at=k)
+                    rc, out, _ = native.run_driver(driver, d, name, os.path.join(d, '__o'), fail_at=k, kind=ek)
                 finally:
                     rmtree(d)
                 s.replays += 1
@@ -256,7 +279,7 @@ def c15(tier):
                     rc, out, _ = native.run_driver(driver, d, name, os.path.join(d, '__o'), fail_at=k)
                 finally:
                     rmtree(d)
-                smi_kind = next((b[0] for b in bad if b[1] == k), 'err')
+                smi_kind = next((b[0] for b in bad if b[1] == k and 'kind=' not in (b[3] or '')), 'err')
                 nat_kind = 'panic' if 'PANIC' in out else 'err' if 'WRITE_ERR Io' in out else 'other'
                 if (smi_kind == 'err') != (nat_kind == 'err'):
                     s.rep.inconc('ENCODING-MISMATCH %s k=%d: SMI %s vs native %s' % (name, k, smi_kind, out.strip()[:160]))
@@ -580,6 +603,7 @@ def c12(tier):
         from xmltree import build, to_xml
         docs.append(('multi.wsdl', {'multi.wsdl': to_xml(build(w.tree()))}))
         docs.append(('all_emitters.wsdl', corpus_files('all_emitters.wsdl')))
+        docs.append(('order.xsd', {k: to_xml(build(v.tree())) for k, v in F.three_ns_doc().items()}))
         if tier == 'thorough':
             for rel in ['resources/number_services/number_services.wsdl', 'zeep-lib/test-data/tempconverter.wsdl']:
                 docs.append(repo_files(rel))
@@ -769,7 +793,7 @@ def extension_oracle(env, items, info, m):
 def c08(tier):
     def body(s):
         s.functions.update(n for n in s.ctx.bodies if re.search(r'read_complex_content_node|import_extension_fields|import_sequence|find_node_by_xml_name|try_to_find_node', n))
-        fams = [F.x_chain(tier), F.x_chain(tier, decoy=True), F.x_cross(tier)]
+        fams = [F.x_chain(tier), F.x_chain(tier, decoy=True), F.x_cross(tier), F.x_cross3(tier)]
         for sc, info in fams:
             scenario_check(s, sc, info, extension_oracle, classify=lambda c, p, i: (c.cls(p) if c.cls else ''))
     return run_e2('C08', tier, body, bounds='extension chains of depth 1..2 plus an empty extension, fan-out 2, in one file with %s declaration orders, with and without a decoy type '
@@ -813,6 +837,21 @@ def qname_oracle(env, items, info, m):
             exp = env.map(lambda q: ('x1', 'extra') if q.startswith('t:') else ('x2', 'y2', 'extra'), info.bref)
             out.append(O.Check('base-ref-namespace', 'Special must inherit the members of the Thing of the namespace bound to the prefix used in base=', RO.sym_eq(names, exp, env.allowed)))
         return out
+    if getattr(info, 'default', False):
+        a1 = struct_by_member(items, 'host', 'Address')
+        a2 = struct_by_member(items, 'street', 'Address')
+        out.append(O.Check('both-components-emitted', 'both namespaces\' Address are emitted', a1 is not None and a2 is not None))
+        if a1 is None or a2 is None:
+            return out
+        ders = O.find_structs(items, 'WeightedAddress', env.allowed)
+        out.append(O.Check('struct-exactly-once', 'WeightedAddress emitted once', len(ders) == 1))
+        if len(ders) == 1:
+            names = tuple(RO.one(O.attr_get(fa, 'rename')) for fa, fd in ders[0].fields)
+            out.append(O.Check('unprefixed-base-own-namespace', 'an unprefixed base="Address" (default xmlns = target namespace) must inherit the importer\'s own Address (host, port), not the imported namespace\'s; got %s' % (names,),
+                               names == ('host', 'port', 'weight')))
+        eps = O.find_structs(items, 'Endpoint', env.allowed)
+        out.append(O.Check('struct-exactly-once', 'Endpoint emitted once', len(eps) == 1))
+        return out
     # rebind
     prob = {}
     for ns, (owner, member) in info.probes.items():
@@ -833,7 +872,7 @@ def qname_oracle(env, items, info, m):
 def c09(tier):
     def body(s):
         s.functions.update(n for n in s.ctx.bodies if re.search(r'find_node_by_xml_name|try_to_find_node|resolve_type|split_type|as_rust_type|add_namespace_reference|collect_namespaces', n))
-        for sc, info in [F.q_types(tier), F.q_rebind(tier)]:
+        for sc, info in [F.q_types(tier), F.q_rebind(tier), F.q_default(tier)]:
             scenario_check(s, sc, info, qname_oracle, classify=lambda c, p, i: ','.join('%s=%s' % (k, v) for k, v in sorted(p.items()) if k != 'order'))
     return run_e2('C09', tier, body, bounds='two namespaces in two files defining complexTypes with the same local name; type= and base= references whose prefix is symbolic; '
                   'declaration order symbolic (3 or all 6 orders); one prefix bound to different namespaces in different files. Outside: element ref= / message part collisions '
@@ -984,7 +1023,7 @@ def annotation_oracle(env, items, info, m):
 def c03(tier):
     def body(s):
         s.functions.update(n for n in s.ctx.bodies if re.search(r'field::<impl.*write_xml|write_complex_type|write_type_alias|Field.*try_from_node|switch_to_target_namespace|import_extension', n))
-        fams = [F.s_seq(tier)[1], F.s_xns(tier), F.s_ref_anon_fwd(tier), F.x_cross(tier), F.x_chain(tier), F.s_xref(tier)]
+        fams = [F.s_seq(tier)[1], F.s_xns(tier), F.s_ref_anon_fwd(tier), F.x_cross(tier), F.x_chain(tier), F.s_xref(tier), F.x_cross3(tier)]
         for sc, info in fams:
             if not hasattr(info, 'bases'):
                 info.bases = {}
